@@ -93,7 +93,7 @@ CLAIMED = {
  "C02": dict(
    technique="property-based testing: identity relation over ~21 executions per generated case (entry points, re-parses, fresh engines, a fresh process, the command-line binary) with bindings re-realised in other insertion orders and at other addresses",
    text="Each generated template (emphasis on maps of 2..12 entries consumed by for/tablerow/array filters/printing/json, pointer-bearing values, Drops, int- and mixed-keyed maps) is rendered about 21 times through every entry point, on fresh parses and engines and for a subset in a fresh process, every time against freshly built bindings with permuted map insertion order while older realisations stay alive; all results must be byte-identical. String-only environments are also run through the built cmd/liquid binary.",
-   note="With 8+ entries and 20 renders an order dependence escapes with probability < 1e-12; address dependence is exposed by re-realising bindings (a deterministic Go program gets the same addresses in every process). The date filter with 'now' and the time zone are not exercised (excepted by the statement). Four listed known findings (printing a struct/map with a nested pointer) have a dedicated sub-check so that listing them hides nothing else.",
+   note="With 8+ entries and 20 renders an order dependence escapes with probability < 1e-12; address dependence is exposed by re-realising bindings (a deterministic Go program gets the same addresses in every process). The date filter with 'now' and the time zone are not exercised (excepted by the statement). Printing a value that holds a pointer (a defect of the pinned tree, long recorded and repaired in the end) has a dedicated sub-check over every place where a value becomes text.",
    ref="DESIGN.md 7.C02"),
  "C03": dict(
    technique="stateful property-based testing: rapid-generated render histories over a pool of templates and shared binding environments, with invariants after every step (deep fingerprint, first-result equality, pristine-engine equality, variable probe)",
